@@ -192,10 +192,19 @@ def main(chk):
         dump_consts, dump_styles, nshards, nrand = dict(base, MaxDepth=5), "StylesFull", 16, 200
         sim_num, sim_depth = 1500, 10
     r = tlc.run("Events", _events_cfg(chk_consts, chk_styles, invs=INVS, props=PROPS), chk.work + "/mc", workers=nproc,
-                timeout=3000, keep_stdout=False)
+                timeout=6000, keep_stdout=False)
     if r.violated:
         chk.violation({"spec": "Events", "action": "TLC", "invariant": r.violated}, "TLC: %s violated in Events.tla" % r.violated,
                       {"invariant": r.violated, "tail": r.stdout[-6000:]})
+    rfull = None
+    if not quick:
+        # thorough: additionally the graph that is dumped below (all 16 option combinations, 4 steps) is model-checked itself
+        rfull = tlc.run("Events", _events_cfg(dump_consts, dump_styles, invs=INVS, props=PROPS), chk.work + "/mcfull", workers=nproc,
+                        timeout=6000, keep_stdout=False)
+        if rfull.violated:
+            chk.violation({"spec": "Events", "action": "TLC", "invariant": rfull.violated, "styles": "full"},
+                          "TLC: %s violated in Events.tla (all option combinations)" % rfull.violated,
+                          {"invariant": rfull.violated, "tail": rfull.stdout[-6000:]})
     # 1b. the intended behaviour of exec_once on a joined dispatcher (the spec follows the code where they differ)
     if tree["joined_xo_broken"]:
         r2 = tlc.run("Events", _events_cfg(dict(base, MaxDepth=4), "StylesQuick", props=["ExecOnceRuns"]), chk.work + "/mc2",
@@ -264,8 +273,10 @@ def main(chk):
         samples.append(["scenario %s boom=%s" % (xg.states[xg.edges[w[0]][0]]["op"], xg.states[xg.edges[w[0]][0]]["boom"])] +
                        ["T%d:%s" % (xg.edges[ei][1]["t"], xg.edges[ei][1]["p"]) for ei in w])
     return chk.finish(
-        dict(states=r.distinct + xr.distinct, transitions=r.generated + xr.generated,
+        dict(states=r.distinct + xr.distinct + (rfull.distinct if rfull else 0),
+             transitions=r.generated + xr.generated + (rfull.generated if rfull else 0),
              events_states=r.distinct, events_transitions=r.generated, events_depth=r.depth,
+             events_full_styles_states=rfull.distinct if rfull else 0, events_full_styles_transitions=rfull.generated if rfull else 0,
              events_edges_replayed=edges, events_edge_walks=sum(x["walks"] for x in res), events_edge_steps=sum(x["steps"] for x in res),
              events_sim_walks=len(swalks), events_sim_steps=ssteps, events_sim_edges=len(sg.edges),
              execonce_states=xr.distinct, execonce_transitions=xr.generated, execonce_depth=xr.depth,
